@@ -54,8 +54,8 @@ Proof.
   { intros G E m items c' W.
     assert (E4: ext g4 G) by (eapply ext_trans; [eapply grows_ext; eauto | auto]).
     assert (E3: ext g3 G) by (eapply ext_trans; [eapply grows_ext; eauto | auto]).
-    destruct (walkn_inv _ _ _ _ _ W) as [(_&->&_)|(m'&i0&c1&i3&->&->&S&T)]; auto. right.
-    rewrite <- SL1, <- SL2 in S. destruct (Inv3 G E3 i0 c1 S) as (->&[->| ->]).
+    destruct (walkn_inv _ _ _ _ _ W) as [(_&->&_)|(m'&i0&c1&i3&->&->&Sx&T)]; auto. right.
+    rewrite <- SL1, <- SL2  in Sx. destruct (Inv3 G E3 i0 c1 Sx) as (->&[->| ->]).
     - rewrite <- SLT, <- SLT2, <- SLT3 in T.
       destruct (Bk4 G E4 m' i3 c' T) as (i1&i2&o&->&P&BO).
       exists i1, i2, o, true, m'. simpl. repeat split; auto.
@@ -94,12 +94,12 @@ Proof.
     exists (ICond (core c) :: i1), i2, o. split; auto. split; [simpl; right; exists i1; auto|].
     apply bout_mono with (n := m'); [|lia].
     destruct t.
-    + eapply bout_then; [exact BO|]. intros i0 c1 S.
-      rewrite SLm8, SLm7, SLm6. rewrite <- SLa5, <- SLa6 in S.
-      eapply inv_link; eauto.
-    + eapply bout_then; [exact BO|]. intros i0 c1 S.
-      rewrite SLm8, SLm7, SLm6. rewrite <- SLb6, <- SLb7 in S.
-      eapply inv_link; eauto.
+    + eapply bout_then; [exact BO|]. intros i0 c1 Sx.
+      rewrite SLm8, SLm7, SLm6. rewrite <- SLa5, <- SLa6  in Sx.
+      exact (inv_link g6 a (length g5) G i0 c1 Oa6 E7 Sx).
+    + eapply bout_then; [exact BO|]. intros i0 c1 Sx.
+      rewrite SLm8, SLm7, SLm6. rewrite <- SLb6, <- SLb7  in Sx.
+      exact (inv_link g7 b (length g5) G i0 c1 Ob7 E Sx).
   - (* else branch jumps: continue in the then branch's block *)
     simpl in V. inversion V; subst; clear V.
     simpl in R4. destruct R4 as (Oa4&Na&Da). pose proof Oa4 as (La4&_&_).
@@ -188,7 +188,7 @@ Proof.
       destruct (opn_link_other g6 e (length g) (S (S (length g))) OT6) as (OT7&SLT7); [destruct De; lia|].
       split; [apply grows_link; exact Oe|].
       split; [rewrite SLT7, SLT6, SLT5; exact SLT4|].
-      intros G E e0 Eq i0 c1 S. inversion Eq; subst. eapply inv_link; eauto.
+      intros G E e0 Eq i0 c1 Sx. inversion Eq; subst e0. exact (inv_link g6 e (length g) G i0 c1 Oe E Sx).
     - simpl in B7. inversion B7; subst; clear B7.
       split; [apply grows_refl|]. split; [rewrite SLT6, SLT5; exact SLT4|].
       intros G E e Eq. discriminate. }
@@ -201,10 +201,10 @@ Proof.
             exists i1 i2 o, items = i1 ++ i2 /\ sloop (spath_l body) (ICond (core c)) i1 o /\
                             bout G j g' (Some (S (S (length g)))) o k i2 c').
   { intros k. induction k as [k IH] using lt_wf_ind. intros items c' W.
-    destruct (walkn_inv _ _ _ _ _ W) as [(_&->&_)|(m'&i0&c1&i3&->&->&S&T)].
+    destruct (walkn_inv _ _ _ _ _ W) as [(_&->&_)|(m'&i0&c1&i3&->&->&Sx&T)].
     { exists [], [], OStop. split; auto. split; [constructor|left; auto]. }
-    rewrite <- SLH1, <- SLH2, <- SLH3, <- SLH4 in S.
-    destruct (Inv5 G E5 i0 c1 S) as (->&[->| ->]).
+    rewrite <- SLH1, <- SLH2, <- SLH3, <- SLH4  in Sx.
+    destruct (Inv5 G E5 i0 c1 Sx) as (->&[->| ->]).
     - (* into the body *)
       rewrite <- SLB3, <- SLB4, <- SLB5 in T.
       destruct (Bk6 G E6 m' i3 c' T) as (i1&i2&o1&->&P1&BO).
@@ -225,25 +225,25 @@ Proof.
         destruct (Back G E e eq_refl i4 c4 S4) as (->&->).
         destruct (IH m2 ltac:(lia) i5 c' T4) as (i6&i7&o&->&L6'&BO6).
         exists (ICond (core c) :: i1 ++ i6), i7, o. split; [simpl; rewrite <- app_assoc; auto|].
-        split; [eapply sl_next; eauto|]. eapply bout_mono; eauto. lia.
+        split; [eapply sl_next; eauto|]. eapply bout_mono; eauto; lia.
       + destruct BO as (b&m1&Eq&Lm&T1). unfold j' in Eq. simpl in Eq. inversion Eq; subst b.
         exists (ICond (core c) :: i1), i2, ONorm. split; auto. split; [apply sl_brk; auto|].
-        right. exists (S (S (length g))), m1. rewrite SLT7. repeat split; auto. lia.
+        right. exists (S (S (length g))), m1. rewrite SLT7. repeat split; auto; lia.
       + destruct BO as (b&m1&Eq&Lm&T1). unfold j' in Eq. simpl in Eq. inversion Eq; subst b.
         destruct (IH m1 ltac:(lia) i2 c' T1) as (i6&i7&o&->&L6'&BO6).
         exists (ICond (core c) :: i1 ++ i6), i7, o. split; [simpl; rewrite <- app_assoc; auto|].
-        split; [eapply sl_next; eauto|]. eapply bout_mono; eauto. lia.
+        split; [eapply sl_next; eauto|]. eapply bout_mono; eauto; lia.
       + destruct BO as (m1&Lm&T1). unfold j' in T1. simpl in T1.
         exists (ICond (core c) :: i1), i2, ORet. split; auto. split; [apply sl_out; auto|].
-        right. exists m1. split; auto. lia.
+        right. exists m1. split; auto; lia.
       + destruct BO.
     - (* out of the loop *)
       exists [ICond (core c)], i3, ONorm. split; auto. split; [constructor|].
       right. exists (S (S (length g))), m'. rewrite SLT7. repeat split; auto. }
   intros k items c' W.
-  destruct (walkn_inv _ _ _ _ _ W) as [(_&->&_)|(m'&i0&c1&i3&->&->&S&T)].
+  destruct (walkn_inv _ _ _ _ _ W) as [(_&->&_)|(m'&i0&c1&i3&->&->&Sx&T)].
   { exists [], [], OStop. split; auto. split; [simpl; constructor|left; auto]. }
-  rewrite <- SL1 in S. destruct (inv_link g1 bb (length g) G i0 c1 O1 E2 S) as (->&->).
+  rewrite <- SL1  in Sx. destruct (inv_link g1 bb (length g) G i0 c1 O1 E2 Sx) as (->&->).
   destruct (Loop m' i3 c' T) as (i1&i2&o&->&L&BO).
   exists i1, i2, o. split; auto. split; [exact L|]. rewrite L3. eapply bout_mono; eauto.
 Qed.
